@@ -312,6 +312,8 @@ def observe_probs(payload):
                                                                          CompilationKind[ck]))
                 except AssertionError:
                     row["declared"] = "assert"
+                except Exception as e:
+                    row["declared"] = "raise:" + type(e).__name__
                 rec["rows"].append(row)
     _CACHE[key] = rec
     while len(_CACHE) > 64:
@@ -344,6 +346,9 @@ def observe_pipe(payload):
             engines = []
         except AssertionError:
             rec["outcome"] = "assert"
+            engines = []
+        except Exception as e:
+            rec["outcome"] = "raise:" + type(e).__name__
             engines = []
         # replay CompilersPipeline.compile stage by stage, keeping the intermediate problems
         declared = ProblemKind(set(k0.features), version=k0._version)
@@ -440,11 +445,23 @@ PIPE_CKS = ["GROUNDING", "CONDITIONAL_EFFECTS_REMOVING", "DISJUNCTIVE_CONDITIONS
 # compilation kinds whose registered compiler accepts the generated problems most often (state invariants and
 # bounded types first, because several other compilers do not support them)
 COMMON_CKS = ["STATE_INVARIANTS_REMOVING", "BOUNDED_TYPES_REMOVING", "USERTYPE_FLUENTS_REMOVING", "QUANTIFIERS_REMOVING",
-              "CONDITIONAL_EFFECTS_REMOVING", "NEGATIVE_CONDITIONS_REMOVING", "GROUNDING", "INTERPRETED_FUNCTIONS_REMOVING"]
+              "CONDITIONAL_EFFECTS_REMOVING", "NEGATIVE_CONDITIONS_REMOVING", "DISJUNCTIVE_CONDITIONS_REMOVING",
+              "UNDEFINED_INITIAL_NUMERIC_REMOVING", "GROUNDING", "INTERPRETED_FUNCTIONS_REMOVING", "TIMED_TO_SEQUENTIAL"]
+
+
+# (remover, a later kind whose compiler does not support what the remover removes)
+DEPENDENT = [("STATE_INVARIANTS_REMOVING", "DISJUNCTIVE_CONDITIONS_REMOVING"), ("STATE_INVARIANTS_REMOVING", "UNDEFINED_INITIAL_NUMERIC_REMOVING"),
+             ("STATE_INVARIANTS_REMOVING", "TIMED_TO_SEQUENTIAL"), ("CONDITIONAL_EFFECTS_REMOVING", "TIMED_TO_SEQUENTIAL"),
+             ("QUANTIFIERS_REMOVING", "DURATIVE_ACTIONS_TO_PROCESSES"), ("INTERPRETED_FUNCTIONS_REMOVING", "NEGATIVE_CONDITIONS_REMOVING"),
+             ("INTERPRETED_FUNCTIONS_REMOVING", "BOUNDED_TYPES_REMOVING")]
 
 
 def rand_pipeline(rng):
     n = rng.choice([1, 2, 2, 3, 3])
+    if rng.random() < 0.3:
+        # the second stage is selectable only for the kind the first stage DECLARES, not for the original kind
+        a, b = rng.choice(DEPENDENT)
+        return [a, b] + ([rng.choice(COMMON_CKS)] if rng.random() < 0.3 else [])
     if rng.random() < 0.6:
         # an order in which each stage usually supports what the previous ones declare
         return sorted(rng.sample(COMMON_CKS, n), key=COMMON_CKS.index)
@@ -472,8 +489,12 @@ def cases(rng, tier):
         else:
             yield ["rk", cname, rand_kind(rng)]
     for _ in range(80 * n):
-        k = clean(rand_kind(rng, base=["ACTION_BASED"] if rng.random() < 0.8 else None))
-        yield ["chain", k, rand_pipeline(rng) if rng.random() < 0.6 else
+        # a later stage that is selectable only thanks to what an earlier stage is declared to remove
+        planted = rng.choice([["ACTION_BASED"], ["ACTION_BASED", "STATE_INVARIANTS"], ["ACTION_BASED", "STATE_INVARIANTS", "DISJUNCTIVE_CONDITIONS"],
+                              ["ACTION_BASED", "CONDITIONAL_EFFECTS", "CONTINUOUS_TIME", "INT_TYPE_DURATIONS"],
+                              ["ACTION_BASED", "UNIVERSAL_CONDITIONS", "FORALL_EFFECTS", "CONTINUOUS_TIME"]])
+        k = clean(rand_kind(rng, base=planted if rng.random() < 0.85 else None, version=LATEST if rng.random() < 0.8 else None))
+        yield ["chain", k, rand_pipeline(rng) if rng.random() < 0.7 else
                [rng.choice(PIPE_CKS + CKS) for _ in range(rng.choice([1, 2, 2, 3]))]]
     for i in range(200 * n):
         src = gen_problem_src(rng, tier)
@@ -507,6 +528,8 @@ def impl(payload):
             return enc_kind(C.resulting_problem_kind(k, None))
         except AssertionError:
             return "assert"
+        except Exception as e:
+            return "raise:" + type(e).__name__
     if t == "chain":
         try:
             k = dec_kind(payload[1])
@@ -520,6 +543,8 @@ def impl(payload):
             return "no-engine"
         except AssertionError:
             return "assert"
+        except Exception as e:
+            return "raise:" + type(e).__name__
         names, kinds = [], []
         for eng, ck in zip(pipe._compilers, payload[2]):
             names.append(_name_of(type(eng)))
@@ -534,8 +559,8 @@ def impl(payload):
         for row in rec["rows"]:
             if row["kq"] is None:
                 out.append([row["cls"], row["ck"], "compile-error"])
-            elif row["declared"] == "assert":
-                out.append([row["cls"], row["ck"], "assert"])
+            elif isinstance(row["declared"], str):
+                out.append([row["cls"], row["ck"], row["declared"]])
             else:
                 out.append([row["cls"], row["ck"], [["declared", row["declared"]],
                                                     ["extra", extra_features(dec_kind(row["kq"]), dec_kind(row["declared"]))]]])
@@ -592,15 +617,19 @@ def oracle(payload):
             C = CLASSES[row["cls"]]
             try:
                 declared = C.resulting_problem_kind(dec_kind(rec["kp"]), CompilationKind[row["ck"]])
-            except AssertionError:
-                return f"{row['cls']}.resulting_problem_kind raises AssertionError on the kind of a supported problem"
+            except Exception as e:
+                return f"{row['cls']}.resulting_problem_kind raises {type(e).__name__} on the kind of a supported problem"
             if not (dec_kind(row["kq"]) <= declared):
                 ex = extra_features(dec_kind(row["kq"]), declared)
                 return (f"{row['cls']} ({row['ck']}): the compiled problem has {ex} outside the declared resulting kind")
         return None
     if t == "pipe":
         rec = observe_pipe(payload)
-        if rec["error"] or rec["outcome"] != "ok":
+        if rec["error"]:
+            return None
+        if rec["outcome"].startswith("raise:") or rec["outcome"] == "assert":
+            return f"Factory.Compiler(problem_kind, compilation_kinds={payload[2]}) {rec['outcome']} while chaining the declared kinds"
+        if rec["outcome"] != "ok":
             return None
         for i, row in enumerate(rec["rows"]):
             if not row["acc"]:
@@ -676,8 +705,10 @@ def known_cause(payload):
         P = problem_of(payload[1])
         bad = False
         for row in rec["rows"]:
-            if row["kq"] is None or row["declared"] == "assert":
+            if row["kq"] is None:
                 continue
+            if isinstance(row["declared"], str):
+                return None
             ex = extra_features(dec_kind(row["kq"]), dec_kind(row["declared"]))
             if ex:
                 bad = True
